@@ -112,7 +112,8 @@ pub fn run_check(id: &str, tier: Tier) -> i32 {
                 parts.push(run_engine(&FlowEngine, &ctx, scale(tier, 12_000, 200_000)));
             }
             parts.push(run_engine(&PairEngine { focus: Focus::Coop }, &ctx, scale(tier, 12_000, 300_000)));
-            if parts.iter().all(|p| p.failure.is_none()) && id != "C06" {
+            if parts.iter().all(|p| p.failure.is_none()) {
+                // (C06: programs with resets and drops are judged for lost wake-ups only — stuck, and complete once re-polled)
                 parts.push(run_engine(&PairEngine { focus: Focus::Resets }, &ctx, scale(tier, 8_000, 200_000)));
             }
             if parts.iter().all(|p| p.failure.is_none()) && id == "C04" {
